@@ -2,13 +2,15 @@
 
 use crate::engine::Ctx;
 
+pub mod c06;
 pub mod c11;
 pub mod c12;
 pub mod c15;
+pub mod c16;
 pub mod c17;
 pub mod c20;
 
-pub const ALL: &[&str] = &["C11", "C12", "C15", "C17", "C20"];
+pub const ALL: &[&str] = &["C06", "C11", "C12", "C15", "C16", "C17", "C20"];
 
 pub fn exists(p: &str) -> bool {
     ALL.contains(&p)
@@ -16,9 +18,11 @@ pub fn exists(p: &str) -> bool {
 
 pub fn run(p: &str, ctx: &mut Ctx) {
     match p {
+        "C06" => c06::run(ctx),
         "C11" => c11::run(ctx),
         "C12" => c12::run(ctx),
         "C15" => c15::run(ctx),
+        "C16" => c16::run(ctx),
         "C17" => c17::run(ctx),
         "C20" => c20::run(ctx),
         _ => panic!("unknown property {}", p),
@@ -28,9 +32,11 @@ pub fn run(p: &str, ctx: &mut Ctx) {
 /// (non-triviality rule, assumptions)
 pub fn meta(p: &str) -> (String, Vec<String>) {
     let (r, a): (&str, &[&str]) = match p {
+        "C06" => (c06::RULE, c06::ASSUMPTIONS),
         "C11" => (c11::RULE, c11::ASSUMPTIONS),
         "C12" => (c12::RULE, c12::ASSUMPTIONS),
         "C15" => (c15::RULE, c15::ASSUMPTIONS),
+        "C16" => (c16::RULE, c16::ASSUMPTIONS),
         "C17" => (c17::RULE, c17::ASSUMPTIONS),
         "C20" => (c20::RULE, c20::ASSUMPTIONS),
         _ => ("", &[]),
